@@ -76,6 +76,8 @@ def build_graph(case):
             objs.append({'id': leaf})
         elif k == 'user':
             objs.append(C13Node(leaf))
+        elif k == 'tnode':
+            objs.append((leaf, []))          # the node IS a tuple; its children sit in the list it holds
         else:
             objs.append([leaf])
     for i, k in enumerate(kinds):
@@ -92,13 +94,15 @@ def build_graph(case):
                 objs[i][key] = child
         elif k == 'tup':
             objs[i].append(tuple(kids))
+        elif k == 'tnode':
+            objs[i][1].extend(kids)
         else:
             objs[i].children = kids
     return objs
 
 
 def type_name(kind):
-    return {'list': 'list', 'dict': 'dict', 'tup': 'list', 'user': 'C13Node'}[kind]
+    return {'list': 'list', 'dict': 'dict', 'tup': 'list', 'user': 'C13Node', 'tnode': 'tuple'}[kind]
 
 
 class TooBig(Exception):
@@ -138,6 +142,8 @@ def expected(case, objs, fault=None, limit=20000):
         if k == 'tup':
             inner = '(' + ', '.join(kids) + (',' if len(kids) == 1 else '') + ')'
             return '[' + leaf + ', ' + inner + ']'
+        if k == 'tnode':
+            return '(' + leaf + ', [' + ', '.join(kids) + '])'
         return USER_NAME + '(' + ', '.join([leaf] + kids) + ')'
 
     text = go(0, frozenset())
@@ -208,10 +214,34 @@ def other_graph():
     return _OTHER[0]
 
 
+class NoTermination(BaseException):      # not an Exception: the package swallows those around printers
+    pass
+
+
 def quiet_pformat(value, **kw):
-    with warnings.catch_warnings():
-        warnings.simplefilter('ignore')
-        return pformat(value, **kw)
+    """pformat under a wall-clock alarm: a print that does not finish is a violation of C13 (termination), and it
+    must not hang the check"""
+    import signal
+
+    def on_alarm(signum, frame):
+        raise NoTermination()
+    old = signal.signal(signal.SIGALRM, on_alarm)
+    # repeating timer: at the recursion limit the Python-level handler itself fails with RecursionError (which the
+    # package swallows around printers), so one shot is not enough
+    signal.setitimer(signal.ITIMER_REAL, PFORMAT_BUDGET_S, 0.05)
+    old_limit = sys.getrecursionlimit()
+    sys.setrecursionlimit(min(old_limit, 1500))      # graphs here have <= 10 nodes: a deep recursion is a failure, fail fast
+    try:
+        with warnings.catch_warnings():
+            warnings.simplefilter('ignore')
+            return pformat(value, **kw)
+    finally:
+        signal.setitimer(signal.ITIMER_REAL, 0)
+        signal.signal(signal.SIGALRM, old)
+        sys.setrecursionlimit(old_limit)
+
+
+PFORMAT_BUDGET_S = 4
 
 
 def check_case(case, acc=None):
@@ -268,14 +298,20 @@ def check_case(case, acc=None):
         add('structure', out1, exp_text)
     # 5. no residue
     acc['evaluations'] += 1
-    out2 = quiet_pformat(root, width=width)
-    if out2 != out1:
-        add('reprint-differs', out2, out1)
-    acc['evaluations'] += 1
-    quiet_pformat(other_graph(), width=width)
-    out3 = quiet_pformat(root, width=width)
-    if out3 != out1:
-        add('residue-after-other', out3, out1)
+    try:
+        out2 = quiet_pformat(root, width=width)
+        if out2 != out1:
+            add('reprint-differs', out2, out1)
+        acc['evaluations'] += 1
+        quiet_pformat(other_graph(), width=width)
+        out3 = quiet_pformat(root, width=width)
+        if out3 != out1:
+            add('residue-after-other', out3, out1)
+    except BaseException as e:     # noqa
+        if isinstance(e, (KeyboardInterrupt, SystemExit)):
+            raise
+        add('terminates', 'on re-print: %s: %s' % (type(e).__name__, str(e)[:100]), 'pformat returns')
+        return vs
     if stats['markers'] or any(v > 1 for v in stats['full'].values()):
         acc['nontrivial'].add(case_key(case))
 
@@ -364,7 +400,7 @@ def run_shard(shard):
         rng = random.Random(shard['seed'])
         for _ in range(shard['count']):
             k = rng.randint(shard['min_nodes'], shard['max_nodes'])
-            kinds = [rng.choice(['list', 'dict', 'tup']) for _ in range(k)]
+            kinds = [rng.choice(['list', 'dict', 'tup', 'tnode']) for _ in range(k)]
             adj = [[rng.randrange(k) for _ in range(rng.choice([0, 1, 1, 2, 2]))] for _ in range(k)]
             case = {'kinds': kinds, 'adj': adj, 'width': rng.choice(WIDTHS)}
             _eval(case, acc)
@@ -376,7 +412,7 @@ def run_shard(shard):
         rng = random.Random(shard['seed'])
         for _ in range(shard['count']):
             k = rng.randint(shard['min_nodes'], shard['max_nodes'])
-            kinds = [rng.choice(['list', 'dict', 'tup', 'user', 'user']) for _ in range(k)]
+            kinds = [rng.choice(['list', 'dict', 'tup', 'tnode', 'user', 'user']) for _ in range(k)]
             if 'user' not in kinds:
                 kinds[rng.randrange(k)] = 'user'
             adj = [[rng.randrange(k) for _ in range(rng.choice([0, 1, 1, 2, 2]))] for _ in range(k)]
@@ -390,7 +426,14 @@ def run_shard(shard):
 
 
 def _eval(case, acc):
+    # once a shard has seen a few prints that do not terminate, the property is decided: do not spend the alarm
+    # budget on every remaining graph of the shard
+    if acc['counters'].get('no_termination', 0) >= 2:
+        acc['counters']['skipped_after_no_termination'] = acc['counters'].get('skipped_after_no_termination', 0) + 1
+        return
     vs = check_case(case, acc)
+    if vs and any(v['kind'] == 'terminates' for v in vs):
+        acc['counters']['no_termination'] = acc['counters'].get('no_termination', 0) + 1
     if vs is None:
         acc['counters']['skipped_too_big'] = acc['counters'].get('skipped_too_big', 0) + 1
         return
@@ -425,7 +468,7 @@ def shards_for(tier, seed):
     idx = 0
     for k in range(max_k, 0, -1):
         adjs = canonical_adjacencies(k)
-        for kinds in itertools.product(['list', 'dict', 'tup'], repeat=k):
+        for kinds in itertools.product(['list', 'dict', 'tup', 'tnode'], repeat=k):
             idx += 1
             shards.append({'what': 'exhaustive', 'k': k, 'kinds': kinds, 'adjs': adjs, 'index': idx})
     nrand = 16 if tier == 'quick' else 64
@@ -471,7 +514,7 @@ def run(tier, seed, jobs=16):
         acc,
         rule='a graph is non-trivial when the reference traversal meets a back edge or prints some node twice in '
              'full (sharing), or when a printer fault is injected',
-        bounds={'tier': tier, 'exhaustive_nodes': max_k, 'kinds': ['list', 'dict', 'tup'], 'out_degree': '0..2',
+        bounds={'tier': tier, 'exhaustive_nodes': max_k, 'kinds': ['list', 'dict', 'tup', 'tnode (the node is a tuple holding the list of its children)'], 'out_degree': '0..2',
                 'canonical_graphs': {k: len(canonical_adjacencies(k)) for k in range(1, max_k + 1)},
                 'random_max_nodes': 10, 'widths': list(WIDTHS), **info},
         exhaustive=True, max_violations=40)
